@@ -716,8 +716,9 @@ theorem src_pca_reach_represents (lib : Lib) (eps : Rat) (heps : 0 ≤ eps) (d :
     exact ⟨by simp; omega, src_pcaIncrement_preserves lib eps heps d centred X Bd st Bm q hX hBd hB hBc hrel hc⟩
 
 /-- PROPERTY (chunking independence for the translated PCA model): two reachable states of the same data hold the same
-count and mean, the same eigenvalues with multiplicities (up to the factor `n − 1`) and span the same principal
-subspace -/
+count and mean and span the same principal subspace (the multiset of eigenvalues is stated for the Mathlib-level chain
+only: `ipca_reach_eigenvalues_unique`).  CAVEAT (as for every theorem built on `IpcaContracts` / `PcaRel`): the
+contracts are exact equalities over ℚ, satisfiable only when the spectral data are rational -/
 theorem src_pca_reach_unique (lib : Lib) (eps : Rat) (heps : 0 ≤ eps) (d : Nat) (centred : Bool) (X : Data)
     (s₁ s₂ : PcaState) (h₁ : SrcPcaReach lib eps d centred X s₁) (h₂ : SrcPcaReach lib eps d centred X s₂) :
     s₁.n = s₂.n ∧ s₁.mean = s₂.mean ∧
